@@ -160,8 +160,11 @@ fn sub_lines(g: &Generated) -> Vec<u16> {
 
 const FINAL_PROBES: &[&str] = &["PRINT A;B;C;A%;B%;A#;B!;X;Y%;Z#", "PRINT A$;\"|\";B$;\"|\";S$;\"|\";I;J%;K;L#;M%;W1%;W2;W3%;F9%", "PRINT Q(1);V(1);R%(1);U#(1);T$(1)"];
 
-fn run_and_probe(term: &mut Term, cmd: &str, replies: &[String]) -> String {
+fn run_and_probe(term: &mut Term, cmd: &str, replies: &[String], file: Option<&str>) -> String {
     let mut o = Opts::default();
+    if let Some(f) = file {
+        o.files.insert("F".to_string(), f.to_string());
+    }
     o.replies = replies.iter().cloned().collect();
     o.max_calls = 5000;
     let end = term.line(cmd, &mut o);
@@ -180,7 +183,9 @@ fn check_run(t: &mut Tape, ctx: &Ctx) -> Outcome {
     // how the final run is started: 0 = RUN [n] on both sides; 1 = CLEAR:GOTO n after the prefix
     // versus RUN n in the fresh interpreter (RUN behaves as CLEAR followed by GOTO); 2 = the
     // program opens with a CLEAR line and is entered by GOTO <that line> versus a fresh RUN
-    let mut mode = *t.pick(&[0usize, 0, 1, 2]);
+    // 3 = RUN "F" with the program in the file F on both sides (a load is a NEW: it also ends
+    // trace mode, so here the prefix may switch TRON on)
+    let mut mode = *t.pick(&[0usize, 0, 1, 2, 3]);
     let first = g.prog.lines.first().map(|l| l.num).unwrap_or(0);
     let mut clear_line = 0u16;
     if mode == 2 {
@@ -222,7 +227,14 @@ fn check_run(t: &mut Tape, ctx: &Ctx) -> Outcome {
     script.push_str(&pre.script);
     let nums = g.prog.line_numbers();
     let target = if !nums.is_empty() && t.chance(1, 4) { Some(*t.pick(&nums)) } else { None };
+    if mode == 3 && t.chance(2, 3) {
+        script.push_str("TRON\n");
+        let mut o = Opts::default();
+        h.line("TRON", &mut o);
+        h.take();
+    }
     let (cmd, cmd_fresh) = match (mode, target) {
+        (3, _) => ("RUN \"F\"".to_string(), "RUN \"F\"".to_string()),
         (1, Some(n)) => (format!("CLEAR:GOTO {}", n), format!("RUN {}", n)),
         (1, None) if !nums.is_empty() => (format!("CLEAR:GOTO {}", nums[0]), "RUN".to_string()),
         (2, _) => (format!("GOTO {}", clear_line), "RUN".to_string()),
@@ -234,10 +246,14 @@ fn check_run(t: &mut Tape, ctx: &Ctx) -> Outcome {
     if let Some(m) = has_panic(&h.log) {
         return Outcome::fail("panic", m, case);
     }
-    let got = run_and_probe(&mut h, &cmd, &g.replies);
+    let file_text = texts.join("\n");
+    let file = if mode == 3 { Some(file_text.as_str()) } else { None };
+    let got = run_and_probe(&mut h, &cmd, &g.replies, file);
     let mut f = Term::new();
-    type_in(&mut f, &texts);
-    let want = run_and_probe(&mut f, &cmd_fresh, &g.replies);
+    if mode != 3 {
+        type_in(&mut f, &texts);
+    }
+    let want = run_and_probe(&mut f, &cmd_fresh, &g.replies, file);
     if got != want {
         return Outcome::fail("run-after-prefix-differs-from-fresh", format!("after the prefix:\n{}\n--- fresh interpreter:\n{}", got, want), case);
     }
@@ -249,6 +265,7 @@ fn check_run(t: &mut Tape, ctx: &Ctx) -> Outcome {
     labels.push(match mode {
         1 => "final run started by CLEAR:GOTO n (fresh side: RUN n)",
         2 => "program opens with a CLEAR line, entered by GOTO (fresh side: RUN)",
+        3 => "final run started by RUN \"file\" (fresh side: an empty interpreter doing the same)",
         _ => "final run started by RUN [n]",
     });
     let o2 = Outcome::pass(nt, hash_str(&case)).with_labels(labels);
@@ -321,6 +338,20 @@ fn check_clear_new(t: &mut Tape, ctx: &Ctx) -> Outcome {
         texts.push(bad);
         faulty = true;
     }
+    // NEW as a statement of the stored program: what stands behind it belongs to a program that
+    // no longer exists and never runs
+    let mut cmd = cmd.to_string();
+    if use_new && !faulty && t.chance(1, 3) {
+        let l1 = "65100 NEW:A=5:B$=\"z\":DIM Q(2):PRINT \"STILL RUNNING\"".to_string();
+        let l2 = "65101 A%=7:PRINT \"NEXT LINE\":GOTO 65101".to_string();
+        for l in [&l1, &l2] {
+            h.line(l, &mut o);
+            texts.push(l.clone());
+        }
+        h.take();
+        cmd = t.pick(&["GOTO 65100", "RUN 65100", "GOSUB 65100", "A=1:GOTO 65100"]).to_string();
+    }
+    let cmd = cmd.as_str();
     let case = format!("{}\n--- session prefix:\n{}--- then: {} and the probe battery", texts.join("\n"), pre.script, cmd);
     crate::runner::note_case(&case);
     h.line(cmd, &mut o);
